@@ -13,10 +13,11 @@ import (
 // production tableBuilder, opened with the production openTable against a private, otherwise
 // empty levelManager (options + caches only), and re-openable from its file.
 type VerifTable struct {
-	lm   *levelManager
-	t    *table
-	name string
-	opt  *Options
+	lm    *levelManager
+	t     *table
+	name  string
+	opt   *Options
+	level int
 }
 
 func verifLevelManager(opt *Options) *levelManager {
@@ -25,11 +26,22 @@ func verifLevelManager(opt *Options) *levelManager {
 
 // VerifBuildTable builds <dir>/<fid>.sst from entries (in the given order) and opens it.
 func VerifBuildTable(dir string, fid uint64, blockSize int, bloomFP float64, entries []*kv.Entry) (*VerifTable, error) {
+	return verifBuildTable(dir, fid, blockSize, bloomFP, 64, 0, entries)
+}
+
+// VerifBuildTableUncached is VerifBuildTable with the block cache disabled and the table placed
+// on level 2 (whose blocks are never admitted to the block cache): every block read goes through
+// loadBlock's cache-miss path.
+func VerifBuildTableUncached(dir string, fid uint64, blockSize int, bloomFP float64, entries []*kv.Entry) (*VerifTable, error) {
+	return verifBuildTable(dir, fid, blockSize, bloomFP, 0, 2, entries)
+}
+
+func verifBuildTable(dir string, fid uint64, blockSize int, bloomFP float64, blockCache int, level int, entries []*kv.Entry) (*VerifTable, error) {
 	if len(entries) == 0 {
 		return nil, errors.New("verif: empty entry set")
 	}
 	opt := &Options{WorkDir: dir, BlockSize: blockSize, BloomFalsePositive: bloomFP, SSTableMaxSz: 64 << 20,
-		BlockCacheSize: 64, BloomCacheSize: 16}
+		BlockCacheSize: blockCache, BloomCacheSize: 16}
 	lm := verifLevelManager(opt)
 	b := newTableBuiler(opt)
 	for _, e := range entries {
@@ -40,7 +52,8 @@ func VerifBuildTable(dir string, fid uint64, blockSize int, bloomFP float64, ent
 	if t == nil {
 		return nil, errors.New("verif: openTable failed")
 	}
-	return &VerifTable{lm: lm, t: t, name: name, opt: opt}, nil
+	t.setLevel(level)
+	return &VerifTable{lm: lm, t: t, name: name, opt: opt, level: level}, nil
 }
 
 // Reopen drops the handle and every cache and opens the table again from its file.
@@ -54,6 +67,7 @@ func (v *VerifTable) Reopen() error {
 	if t == nil {
 		return errors.New("verif: reopen failed")
 	}
+	t.setLevel(v.level)
 	v.t = t
 	return nil
 }
